@@ -271,3 +271,23 @@ def generated_catalogue(n: int, seed: int = 77) -> list[str]:
             seen.add(t)
             out.append(t)
     return out
+
+
+# ---- use-shapes of one shared callee object (macro / sub-routine / call helper).  State that one use leaves on the
+# shared Macro / SubRoutine / Parameter object is seen by the next, *different* use of the same object.
+CALLEES = {
+    "extract32": ("extract32(RsV, 0, 8)", 32), "sextract64": ("sextract64(RssV, 0, 16)", 64),
+    "deposit32": ("deposit32(RsV, 0, 8, RtV)", 32), "bswap32": ("bswap32(RsV)", 32), "extract64": ("extract64(RssV, 0, 8)", 64),
+    "clz32": ("clz32(RsV)", 32), "clo32": ("clo32(RsV)", 32), "revbit32": ("revbit32(RsV)", 32), "fbrev": ("fbrev(RsV)", 32),
+    "clz64": ("clz64(RssV)", 64), "conv_round": ("conv_round(RsV, 2)", 32), "get_npc": ("get_npc(pkt)", 32),
+}
+SHAPES = ["{ D = X; }", "{ D = -X; }", "{ D = ~X; }", "{ D = PuV ? X : RtV; }", "{ D = ({ RxV = 1; X; }); }", "{ D = X + X; }",
+          "{ if (X) { D = 1; } }", "{ D = (int8_t) X; }", "{ D = clz32(X); }", "{ int32_t v = X; D = v; }",
+          "{ D = RsV ? ({ RxV = 2; X; }) : 0; }", "{ D = (X > 2) ? 1 : 0; }"]
+
+
+def callee_shapes() -> dict[str, list[str]]:
+    out = {}
+    for name, (x, w) in CALLEES.items():
+        out[name] = [sh.replace("X", x).replace("D", "RdV" if w == 32 else "RddV") for sh in SHAPES]
+    return out
